@@ -20,7 +20,7 @@ def build_args(ctx, lab, p):
     cand = common_candidates(ids)
     if shape == "scalar-id":
         w = ctx.choose("well0", cand)
-        v = ctx.real("x0", vlo)
+        v = ctx.real("x0", vlo, nan=True) if getattr(ctx, "mode", "") == "fp" else ctx.real("x0", vlo)   # FP mode: NaN is a value of the type
         return w, v, [(w, v)], shape
     if shape in ("list", "list-scalar", "list-short"):
         k = p["k"]
